@@ -278,7 +278,13 @@ func Package(path string, files []string) (*PkgInfo, error) {
 
 func getNamedImports(gocmd string, pkgs map[string]string) ([]*Import, error) {
 	var imports []*Import
-	for pkg, alias := range pkgs {
+	paths := make([]string, 0, len(pkgs))
+	for pkg := range pkgs {
+		paths = append(paths, pkg)
+	}
+	sort.Strings(paths)
+	for _, pkg := range paths {
+		alias := pkgs[pkg]
 		debug.Printf("getting import package %q, alias %q", pkg, alias)
 		imp, err := getImport(gocmd, pkg, alias)
 		if err != nil {
@@ -404,7 +410,13 @@ func setNamespaces(pi *PkgInfo) {
 func setImports(gocmd string, pi *PkgInfo) error {
 	importNames := map[string]string{}
 	rootImports := []string{}
-	for _, f := range pi.AstPkg.Files {
+	fnames := make([]string, 0, len(pi.AstPkg.Files))
+	for fname := range pi.AstPkg.Files {
+		fnames = append(fnames, fname)
+	}
+	sort.Strings(fnames)
+	for _, fname := range fnames {
+		f := pi.AstPkg.Files[fname]
 		for _, d := range f.Decls {
 			gen, ok := d.(*ast.GenDecl)
 			if !ok || gen.Tok != token.IMPORT {
@@ -434,6 +446,7 @@ func setImports(gocmd string, pi *PkgInfo) error {
 	if err != nil {
 		return err
 	}
+	sort.Strings(rootImports)
 	for _, s := range rootImports {
 		imp, err := getImport(gocmd, s, "")
 		if err != nil {
